@@ -6,6 +6,7 @@ package main
 import (
 	"encoding/json"
 	"fmt"
+	"net/url"
 	"os"
 	"regexp"
 	"sort"
@@ -115,7 +116,7 @@ func dyn(u string, attempt int) (world.Resp, bool) {
 	case "/hub":
 		// outlinks from all three sources: <a href>, the Link response header, bare URLs in the text
 		hdr := map[string]string{"Content-Type": "text/html; charset=utf-8", "Link": `<http://other.example/hdr1>; rel="next", <` + H + `/in2>; rel="alternate"`}
-		return world.Resp{Status: 200, Header: hdr, Body: `<!DOCTYPE html><html><body><img src="/a.png"><img src="/ra"><a href="` + H + `/in1">in</a> <a href="http://other.example/out1">out</a> see http://other.example/plain1 and ` + H + `/in3 for more</body></html>`}, true
+		return world.Resp{Status: 200, Header: hdr, Body: `<!DOCTYPE html><html><body><img src="/a.png"><img src="/ra"><a href="` + H + `/in1">in</a> <a href="http://other.example/out1">out</a> <a href="http://www.nots.example/look1">lookalike</a> <a href="http://nots.example/look2">lookalike</a> <a href="http://sub.s.example/in4">sub</a> see http://other.example/plain1 and ` + H + `/in3 for more</body></html>`}, true
 	case "/feed.xml", "/cut.xml", "/hub.json":
 		// documents that are not HTML and name further pages: a feed, the same feed cut inside its last tag (the
 		// tokenizer fails after it has read the links), a JSON document
@@ -183,8 +184,13 @@ func scenario(s *scen) *vsched.Scenario {
 
 func matchesDC(s *scen, raw string) bool {
 	switch s.DC {
-	case "site":
-		return strings.Contains(raw, "s.example")
+	case "site": // a naive domain: the host itself and its sub-domains, nothing that merely ends in the same letters
+		pu, err := url.Parse(raw)
+		if err != nil {
+			return false
+		}
+		h := strings.ToLower(pu.Hostname())
+		return h == "s.example" || strings.HasSuffix(h, ".s.example")
 	case "other":
 		return strings.Contains(raw, "elsewhere.example")
 	case "exact-url": // a full URL with a path matches by string equality only, not its whole host
